@@ -9,8 +9,9 @@ from __future__ import annotations
 
 import ast
 import copy
+import re
 
-from .loader import FuncInfo, norm, walk_no_nested
+from .loader import FuncInfo, dotted, norm, walk_no_nested
 
 
 class Defs:
@@ -730,6 +731,12 @@ def absence_by_none(fn_node: ast.AST, containers: tuple[str, ...] = ()) -> list[
             r = is_get(t) if isinstance(t, (ast.Name, ast.NamedExpr, ast.Call)) else None
             if r:
                 out.append((n, r))
+        if isinstance(n, ast.BoolOp) and len(n.values) >= 2:
+            # `X.get(key) or <default>`: every falsy stored value (0, "", an empty list, None) is replaced by the default
+            for v in n.values[:-1]:
+                r = is_get(v) if isinstance(v, (ast.Name, ast.NamedExpr, ast.Call)) else None
+                if r:
+                    out.append((n, r))
     return out
 
 
@@ -1335,3 +1342,39 @@ def subclass_missing_attrs(prog, base_q: str, sub_q: str) -> dict[str, list[tupl
         out[attr] = reads
     return out
 
+
+
+UNPICKLABLE_CTORS = re.compile(r"^(threading\.(R?Lock|Condition|Event|Semaphore|BoundedSemaphore|Barrier|local)|_thread\.(allocate_lock|RLock)|asyncio\.(Lock|Event|Condition|Semaphore|Queue|get_event_loop|new_event_loop)|"
+                               r"queue\.(Queue|LifoQueue|PriorityQueue|SimpleQueue)|open|socket\.socket|weakref\.ref|concurrent\.futures\.(ThreadPoolExecutor|ProcessPoolExecutor)|"
+                               r"(R?Lock|Condition|Event|Semaphore|ThreadPoolExecutor|ProcessPoolExecutor))$")
+
+
+def unpicklable_fields(prog, cls) -> list[tuple[FuncInfo, ast.AST, str, str]]:
+    """(method, assignment, attribute, constructor) for every `self.<attr> = <primitive>()` in the class where the primitive is
+    an object the pickle module refuses (locks, events, open files, sockets, executors, event loops) and the class's
+    `__getstate__` / `__reduce__` does not leave the attribute out."""
+    out = []
+    gs = dict.get(cls.methods, "__getstate__")
+    rd = dict.get(cls.methods, "__reduce__") or dict.get(cls.methods, "__reduce_ex__")
+    for m in cls.methods.values():
+        for a in ast.walk(m.node):
+            tv = [(t, a.value) for t in a.targets] if isinstance(a, ast.Assign) else ([(a.target, a.value)] if isinstance(a, ast.AnnAssign) and a.value is not None else [])
+            for t, v in tv:
+                if not (isinstance(t, ast.Attribute) and isinstance(t.value, ast.Name) and t.value.id == "self" and isinstance(v, ast.Call)):
+                    continue
+                name = dotted(v.func)
+                if not name:
+                    continue
+                full = name
+                head = name.split(".")[0]
+                alias = m.module.aliases.get(head)
+                if alias and alias != head:
+                    full = alias + name[len(head):]
+                if not (UNPICKLABLE_CTORS.match(full) or UNPICKLABLE_CTORS.match(name)):
+                    continue
+                if rd is not None:
+                    continue
+                if gs is not None and re.search(rf"['\"]{re.escape(t.attr)}['\"]", norm(gs.node)):
+                    continue  # __getstate__ names the attribute (drops / replaces it)
+                out.append((m, a, t.attr, full))
+    return out
